@@ -178,7 +178,8 @@ package store
 //@   stable_set_in NewProvider
 //
 //@ func (*Provider) Provide
-//@   requires [recv] p != nil && p.nRetries >= 0
+//@   requires [recv] p != nil && p.nRetries >= 0 && p.str != nil && p.str.snapshotCAS != nil && p.str.db != nil
+//@   assigns **
 //@   ghost var lastBackupErr error = nil
 //@   ghost var attempts int = 0
 //@   ghost var rewound bool = false
